@@ -26,7 +26,9 @@ var recRelay = ev.New("C11", "relay-scenarios",
 	Require("name-target", "ss2022-address-change", "fenced-garbage", "topology:peer", "topology:direct", "batch:no", "batch:sendmmsg",
 		"tour:name-to-other-name", "tour:name-to-failing-name:servfail", "tour:name-to-failing-name:nxdomain", "tour:failing-name-now-resolvable",
 		"tour:name-to-ip", "tour:ip-to-name", "tour:same-name-other-port", "drop-first:sendmmsg", "tunnel-target-only",
-		"garbage-first-then-valid-same-socket", "garbage-first:no", "garbage-first:sendmmsg")
+		"garbage-first-then-valid-same-socket", "garbage-first:no", "garbage-first:sendmmsg",
+		"relay-switch:ss2022:sendmmsg", "relay-switch:ss2022:no", "relay-switch:nat:sendmmsg", "relay-switch:nat:no",
+		"burst-with-unsendable:sendmmsg", "burst-with-unsendable:no")
 
 func workDir(t interface{ TempDir() string }) string {
 	if d := os.Getenv("VERIF_WORK"); d != "" {
@@ -173,6 +175,35 @@ func fixedPlans() []*plan {
 				{A: []planOp{{Kind: "paced", Dest: 1, Alt: 1, N: 2}}},
 			}}
 	}
+	// one live session talks to relay address A, switches to B (one echo, then a reply burst), then to C
+	relaySwitchPlan := func(seed uint64, server, batch, wildcard string) *plan {
+		p := &plan{Seed: seed, ServerProto: server, BatchMode: batch, ClientProto: "direct", Topology: "direct", NSock: 3, Dests: dests(), Wildcard: wildcard, TunnelDest: 1,
+			Sessions: []planSession{
+				{A: []planOp{{Kind: "paced", Dest: 0, Alt: 0, N: 2}, {Kind: "relayswitch", Dest: 0, N: 24, Fill: 30}, {Kind: "paced", Dest: 0, Alt: 0, N: 1}, {Kind: "relayswitch", Dest: 0, N: 32}},
+					B: []planOp{{Kind: "burst", Dest: 0, Alt: 0, N: 16}, {Kind: "relayswitch", Dest: 0, N: 12, Fill: 500}}},
+				{A: []planOp{{Kind: "paced", Dest: 2, Alt: 2, N: 1}, {Kind: "relayswitch", Dest: 2, N: 20}}, B: []planOp{{Kind: "paced", Dest: 2, Alt: 2, N: 2}}},
+			}}
+		if server == "direct" {
+			for i := range p.Sessions {
+				for _, ops := range [][]planOp{p.Sessions[i].A, p.Sessions[i].B} {
+					for j := range ops {
+						ops[j].Dest, ops[j].Alt = 1, 1
+					}
+				}
+			}
+		}
+		return p
+	}
+	// new client sockets whose first datagrams come as one burst, some of them unsendable (target port 0)
+	unsendablePlan := func(seed uint64, server, batch string) *plan {
+		d := append(dests(), planDest{Sock: 0, Port0: true})
+		return &plan{Seed: seed, ServerProto: server, BatchMode: batch, ClientProto: "direct", Topology: "direct", NSock: 3, Dests: d,
+			Sessions: []planSession{
+				{A: []planOp{{Kind: "freshburst", Dest: 0, Alt: 5, N: 24, Fill: 10}, {Kind: "freshburst", Dest: 1, Alt: 5, N: 40, Fill: 300}},
+					B: []planOp{{Kind: "freshburst", Dest: 3, Alt: 5, N: 12}}},
+				{A: []planOp{{Kind: "paced", Dest: 2, Alt: 2, N: 1}, {Kind: "freshburst", Dest: 2, Alt: 5, N: 30, Fill: 64}}, B: []planOp{{Kind: "freshburst", Dest: 2, Alt: 5, N: 8}}},
+			}}
+	}
 	ss := "2022-blake3-aes-128-gcm"
 	return []*plan{
 		tourPlan(1, "socks5", "no", "direct", "direct", "servfail"),
@@ -189,6 +220,16 @@ func fixedPlans() []*plan {
 		garbageFirstPlan(24, "none", "no", 1),         // empty datagram
 		garbageFirstPlan(25, ss, "no", 1),             // own packet, damaged body
 		garbageFirstPlan(26, ss, "sendmmsg", 1),
+		relaySwitchPlan(31, ss, "sendmmsg", "0.0.0.0"),
+		relaySwitchPlan(32, ss, "sendmmsg", "[::]"),
+		relaySwitchPlan(33, ss, "no", "0.0.0.0"),
+		relaySwitchPlan(34, "socks5", "sendmmsg", "[::]"),
+		relaySwitchPlan(35, "none", "no", "0.0.0.0"),
+		relaySwitchPlan(36, "direct", "sendmmsg", "0.0.0.0"),
+		unsendablePlan(41, "socks5", "sendmmsg"),
+		unsendablePlan(42, "none", "sendmmsg"),
+		unsendablePlan(43, ss, "sendmmsg"),
+		unsendablePlan(44, "socks5", "no"),
 	}
 }
 
